@@ -418,8 +418,9 @@ func (s *simscreen) SetSize(w, h int) {
 	s.cursorx, s.cursory = -1, -1
 	s.physw, s.physh = w, h
 	s.front = newc
-	s.back.Resize(w, h)
 	s.Unlock()
+	// the logical screen is resized, and the resize event posted, by the
+	// next Show or Sync, as on a real terminal
 }
 
 func (s *simscreen) GetContents() ([]SimCell, int, int) {
